@@ -5,6 +5,7 @@ import Driver.Trace
 import Driver.IO
 import Driver.Equiv
 import Driver.Sat
+import Driver.Dyn
 import Crusta.Model.Graph
 
 open Crusta Driver
@@ -268,7 +269,7 @@ def main : IO Unit := do
       | "enc" => runEnc c.lines
       | "multi" => runMulti c
       | "equiv" => runEquiv c.lines
-      | "dyn" => runDyn c
+      | "dyn" => runDyn c ++ runDynTrace c.lines
       | "sat" => runSat c.lines
       | "read" => runRead c.lines
       | "write" => runWrite c.lines
